@@ -1,4 +1,4 @@
-HOOK_COMMITS = ["6a4fe2f"]
+HOOK_COMMITS = ["6a4fe2f", "36f6cc7", "cb89a57"]
 
 _NOTE = ("Trusted: Lean kernel; axioms propext/Quot.sound/Classical.choice only (audited each run); the hand-written model is tied "
          "to the code by the correspondence stream(s) and regenerated facts, so its reach is bounded by generator coverage "
@@ -56,6 +56,16 @@ META["C17"] = {
     "design_ref": "DESIGN.md section 5 C17",
     "note": _NOTE,
     "technique": "Lean 4 round-trip and order theorems over regenerated alphabet facts + differential correspondence",
+}
+
+META["C16"] = {
+    "text": "Proof: parse(marshal a) = a by induction over the nesting of address types, for every valid address of every "
+            "swarm stack (memswarm, udp with IPv4/IPv6 bracket rules, ssh fingerprint@ip:port, id@inner, scheme://inner), and "
+            "whatever arbitrary text parses to is valid and marshals back to text that parses to the same address. The real "
+            "MarshalText/ParseAddr of all six address types, nested, are compared with the model on generated and mutated text.",
+    "design_ref": "DESIGN.md section 5 C16",
+    "note": _NOTE + " net/netip and fmt.Sscan are parameters with assumed laws (EnvOK), checked against the stdlib each run.",
+    "technique": "Lean 4 structural induction on the address grammar + differential correspondence with the Go parsers",
 }
 
 _PENDING = "check under construction in this build round; will be claimed once its model, theorems and correspondence stream pass on the unchanged tree"
